@@ -19,6 +19,7 @@ from amaranth.hdl import _ast as A
 from amaranth.hdl._ir import PortDirection
 from amaranth.lib.memory import Memory
 from amaranth.lib import data as ldata
+from amaranth.lib import enum as lenum
 
 from . import gen_expr, gen_prog
 
@@ -240,8 +241,57 @@ IO_CAT_CLEAN = ["split", "split", "swap", "bits", "two_ports", "part"]
 IO_CAT_DUP = ["overlap", "overlap", "twice", "bit_twice"]
 
 
+class FcKind(lenum.Enum, shape=2):
+    """an enumeration-shaped field: its alias wire carries `enum_base_type`/`enum_value_*` attributes"""
+    IDLE = 0
+    BUSY = 1
+    DONE = 3
+
+
+def alias_suffixes(lay):
+    """the suffixes `ModuleEmitter.emit_signal_fields` appends to a signal's name for the alias wires of its
+    fields, in order, *with repetitions* (one per field path): `.name` per struct/union/flexible field (the key
+    through `str`), `[i]` per array element, joined without separator (`s.f.g[1]`, `s[0].x`, `s[0][1]`)"""
+    out = []
+    if isinstance(lay, ldata.ArrayLayout):
+        for i in range(lay.length):
+            out.append(f"[{i}]")
+            out += [f"[{i}]" + t for t in alias_suffixes(lay.elem_shape)]
+    elif isinstance(lay, ldata.Layout):
+        for key, field in lay:
+            out.append(f".{key}")
+            out += [f".{key}" + t for t in alias_suffixes(field.shape)]
+    return out
+
+
+def fc_layouts():
+    """(tag, layout) of the `field_clash` signals: struct / array / nested / union / flexible layouts, zero-width and
+    enumeration fields, and (`self_*`) layouts two of whose own field paths join to one alias name"""
+    S, A, U = ldata.StructLayout, ldata.ArrayLayout, ldata.UnionLayout
+    return [
+        ("struct", S({"f": 2, "g": A(2, 2)})),
+        ("nested", S({"f": S({"g": 1, "h": signed(2)}), "k": 1})),
+        ("array", A(unsigned(2), 2)),
+        ("array_of_struct", A(S({"f": 1, "g": signed(2)}), 2)),
+        ("array_of_array", A(A(1, 2), 2)),
+        ("union", U({"f": 3, "g": signed(2)})),
+        ("zero_width_field", S({"z": 0, "f": 2, "g": A(0, 2)})),
+        ("enum_field", S({"f": FcKind, "g": 1})),
+        ("self_dot", S({"f": S({"g": 1, "h": 2}), "f.g": 3})),
+        ("self_index", S({"g": A(2, 2), "g[0]": 1})),
+        ("self_deep", S({"f": S({"g": A(1, 2)}), "f.g": 2, "f.g[1]": signed(1)})),
+        ("self_flexible", ldata.FlexibleLayout(4, {"f": ldata.Field(A(1, 2), 0), "f[0]": ldata.Field(1, 3),
+                                                   0: ldata.Field(signed(2), 1)})),
+        ("self_union", U({"f": S({"g": 2}), "f.g": signed(2)})),
+    ]
+
+
+FC_BASES = ["a", "a", "s", "s", "pad", "o", "a.f", "s.g", "s[0]"]
+
+
 def gen_design(rng, hist, *, instances=True, memories=True, iobufs=True, layouts=True, odd=None, allow_f9=False, allow_f25=False, zero_io=False,
-               async_reset=True, max_depth=4, all_ports=False, drop=frozenset(), dup_tf=False, io_cat=False, src_attrs=False):
+               async_reset=True, max_depth=4, all_ports=False, drop=frozenset(), dup_tf=False, io_cat=False, src_attrs=False,
+               field_clash=False, field_clash_cells=False):
     """returns a `Built`: .top .ports .foreign (expected-instance S-expressions) .inputs .domains .pool ...
 
     `io_cat` and `src_attrs` are off by default and then draw nothing from `rng` (the streams of the other
@@ -249,7 +299,15 @@ def gen_design(rng, hist, *, instances=True, memories=True, iobufs=True, layouts
     is a concatenation of slices of one (or two) `IOPort`s, a tenth of them with a bit repeated (inside one
     value, or in two separate uses): `.io_dup` tells whether some I/O port bit is used twice anywhere in the
     design (amaranth must refuse exactly those).  `src_attrs`: some instances get an attribute literally
-    named `src` (expected among the attributes like any other)."""
+    named `src` (expected among the attributes like any other).
+
+    `field_clash` (off by default; draws nothing from `rng` when off): 1-3 more structured signals (`fc_layouts`: struct,
+    array, nested, union, flexible layouts, zero-width and enumeration fields, layouts whose own field paths join to one
+    alias name) named from `FC_BASES`, and the *alias names* amaranth gives the wires of their fields (`sig.f`, `sig.f.g`,
+    `sig[0]`, `sig[0].f`, ... see `alias_suffixes`) are then used as the names of other signals, of memories, of I/O ports
+    and of top-level ports; the module that holds such an object also reads the structured signal (so its alias wires
+    are emitted in that very module).  `.field_clash` = {"signals": [(name, tag, [suffixes])], "placed": [(kind, name)]}.
+    `field_clash_cells` (needs `field_clash`): alias names also name `Instance`s and submodules."""
     def note(k, n=1):
         hist[k] = hist.get(k, 0) + n
 
@@ -302,6 +360,7 @@ def gen_design(rng, hist, *, instances=True, memories=True, iobufs=True, layouts
 
     pool = []
     layouts_used = 0
+    lay_sigs = []        # (signal, tag, layout) of the structured signals
     for k in range(rng.randint(3, 10)):
         nm = rand_name()
         if layouts and rng.random() < 0.12:
@@ -313,10 +372,67 @@ def gen_design(rng, hist, *, instances=True, memories=True, iobufs=True, layouts
             ])
             s = Signal(lay, name=nm or rng.choice(["a", "s"])).as_value()
             layouts_used += 1
+            lay_sigs.append((s, "pool", lay))
         else:
             sh = gen_expr.rand_shape(rng, 6)
             s = Signal(sh, name=nm, init=gen_expr.rand_value(rng, sh))
         pool.append(s)
+    # -- field alias names (optional, see `field_clash`) -----------------------------------------------
+    fc_names = []        # (alias name, index into lay_sigs) - candidates for the names of other objects
+    fc_used = set()      # (module index, id of structured signal): the module reads the signal already
+    b.field_clash = {"signals": [], "placed": []}
+    if field_clash:
+        for k in range(rng.randint(1, 3)):
+            tag, lay = rng.choice(fc_layouts())
+            s = Signal(lay, name=rng.choice(FC_BASES)).as_value()
+            pool.append(s)
+            lay_sigs.append((s, tag, lay))
+            note("field_clash_layout=" + tag)
+        for k, (s, tag, lay) in enumerate(lay_sigs):
+            sufs = alias_suffixes(lay)
+            b.field_clash["signals"].append((s.name, tag, sufs))
+            fc_names += [(s.name + t, k) for t in sufs]
+            if len(set(sufs)) < len(sufs):
+                note("field_clash_self_collision")
+        seen = {}
+        for nm, k in fc_names:
+            seen.setdefault(nm, set()).add(k)
+        note("field_clash_cross_signal_collision", sum(1 for ks in seen.values() if len(ks) > 1))
+        note("field_clash_signals", len(lay_sigs))
+        # other signals named like an alias wire (also structured ones: `a.f` with a field `g` next to `a` with `f.g`)
+        for k in range(rng.randint(0, 2)):
+            nm, _k = rng.choice(fc_names)
+            sh = gen_expr.rand_shape(rng, 6)
+            pool.append(Signal(sh, name=nm, init=gen_expr.rand_value(rng, sh)))
+            b.field_clash["placed"].append(("signal", nm))
+            note("field_clash_signal")
+
+    def fc_name(mi, kind, p):
+        """with probability `p` an alias name for an object of `kind` that lives in module `mi` (None otherwise);
+        the module then reads the structured signal, so the alias wires are emitted next to the object"""
+        if not fc_names or rng.random() >= p:
+            return None
+        nm, k = rng.choice(fc_names)
+        fc_touch(mi, k)
+        b.field_clash["placed"].append((kind, nm))
+        note("field_clash_" + kind)
+        return nm
+
+    def fc_touch(mi, k):
+        s = lay_sigs[k][0]
+        if mi is None or empty[mi] or (mi, id(s)) in fc_used:
+            return
+        fc_used.add((mi, id(s)))
+        # a sink nobody reads: no combinational path is added
+        mods[mi].d.comb += Signal(max(len(s), 1), name="").eq(s)
+
+    def fc_touch_name(mi, nm):
+        """the object called `nm` is (also) used in module `mi`"""
+        for n, k in fc_names:
+            if n == nm:
+                fc_touch(mi, k)
+                return
+
     pool.append(Signal(2, name="sel"))      # always one small unsigned signal for offsets
     note("layout_signals", layouts_used)
     b.pool = pool
@@ -383,6 +499,10 @@ def gen_design(rng, hist, *, instances=True, memories=True, iobufs=True, layouts
     if iobufs or instances:
         for k in range(rng.randint(0, 3)):
             ioports.append(IOPort(rng.randint(0 if zero_io else 1, 3), name=rng.choice(["pad", "io", "a", "sub", "pad"])))
+        if field_clash:
+            # I/O ports named like an alias wire; the module that uses one is known only later (`fc_touch_name`)
+            for k in range(rng.randint(0, 2)):
+                ioports.append(IOPort(rng.randint(1, 3), name=fc_name(None, "ioport", 1.0) or "pad"))
     free_io = ioports[:]
     rng.shuffle(free_io)
     b.foreign = []
@@ -427,7 +547,10 @@ def gen_design(rng, hist, *, instances=True, memories=True, iobufs=True, layouts
         if first and comb_t:
             pass
         # memories
-        for _mem_k in range(rng.choice([0, 0, 0, 0, 0, 0, 1, 1, 2, 3]) if memories else 0):
+        n_mems = rng.choice([0, 0, 0, 0, 0, 0, 1, 1, 2, 3]) if memories else 0
+        if field_clash and memories and rng.random() < 0.5:
+            n_mems = max(n_mems, rng.choice([1, 1, 2]))
+        for _mem_k in range(n_mems):
             n_mem += 1
             w = rng.randint(1, 6)
             gran = None
@@ -437,7 +560,7 @@ def gen_design(rng, hist, *, instances=True, memories=True, iobufs=True, layouts
             shape = unsigned(w) if gran or rng.random() < 0.7 else signed(w)
             init = [gen_expr.rand_value(rng, shape) for _ in range(rng.randint(0, dpt))]
             mem = Memory(shape=shape, depth=dpt, init=init)
-            nm = rng.choice(SUBNAMES + [None])
+            nm = (field_clash and fc_name(mi, "memory", 0.6)) or rng.choice(SUBNAMES + [None])
             if nm is None:
                 m.submodules += mem
             else:
@@ -510,12 +633,14 @@ def gen_design(rng, hist, *, instances=True, memories=True, iobufs=True, layouts
                 ports.append(f'("\\\\o{k}" o {hi - lo} -)')
             if free_io and rng.random() < 0.6:
                 io = free_io.pop()
+                if field_clash:
+                    fc_touch_name(mi, io.name)
                 d = rng.choice(["i", "o", "io"])
                 args.append((d, "pad", io))
                 ports.append(f'("\\\\pad" io {len(io)} -)' if d == "io" else f'("\\\\pad" {d} {len(io)} -)')
                 b_dir = d
             inst = Instance(ty, *args)
-            nm = rng.choice(SUBNAMES + [None])
+            nm = (field_clash_cells and fc_name(mi, "instance", 0.6)) or rng.choice(SUBNAMES + [None])
             if nm is None:
                 m.submodules += inst
             else:
@@ -530,7 +655,7 @@ def gen_design(rng, hist, *, instances=True, memories=True, iobufs=True, layouts
         for (i, lo, hi) in buf_t:
             if hi == lo and not zero_io:
                 continue                     # a zero-width IOPort is finding F26 (separate stream)
-            io = IOPort(hi - lo, name=rng.choice(["pad", "io", "a"]))
+            io = IOPort(hi - lo, name=(field_clash and fc_name(mi, "ioport", 0.5)) or rng.choice(["pad", "io", "a"]))
             ioports.append(io)
             if rng.random() < 0.5:
                 m.submodules += IOBufferInstance(io, i=piece(i, lo, hi))
@@ -539,8 +664,10 @@ def gen_design(rng, hist, *, instances=True, memories=True, iobufs=True, layouts
                 m.submodules += IOBufferInstance(io, i=piece(i, lo, hi), o=Cat(g_comb.expr(1), Const(0, hi - lo))[:hi - lo],
                                                  oe=g_comb.expr(1).bool())
                 note("iobuf_io")
-        if iobufs and free_io and rng.random() < 0.3:
+        if iobufs and free_io and rng.random() < (0.6 if field_clash else 0.3):
             io = free_io.pop()
+            if field_clash:
+                fc_touch_name(mi, io.name)
             e = g_comb.expr(2)
             e = Cat(e, Const(0, len(io)))[:len(io)]
             if rng.random() < 0.5:
@@ -560,7 +687,7 @@ def gen_design(rng, hist, *, instances=True, memories=True, iobufs=True, layouts
                 shape = rng.choice(["split", "swap", "bits"])        # every bit of the port is used once already
             else:
                 shape = rng.choice(IO_CAT_CLEAN)
-            pins = IOPort(rng.randint(2, 4), name=rng.choice(["pins", "pad", "io", "a"]))
+            pins = IOPort(rng.randint(2, 4), name=(field_clash and fc_name(mi, "ioport", 0.5)) or rng.choice(["pins", "pad", "io", "a"]))
             ioports.append(pins)
             other = None
             if shape == "two_ports":
@@ -591,7 +718,7 @@ def gen_design(rng, hist, *, instances=True, memories=True, iobufs=True, layouts
                 d = kind[5:]
                 e = fit(g_comb.expr(1), n)
                 inst = Instance(ty, ("i", "D", e), (d, "pad", val))
-                nm = rng.choice(SUBNAMES + [None])
+                nm = (field_clash_cells and fc_name(mi, "instance", 0.6)) or rng.choice(SUBNAMES + [None])
                 if nm is None:
                     m.submodules += inst
                 else:
@@ -636,7 +763,8 @@ def gen_design(rng, hist, *, instances=True, memories=True, iobufs=True, layouts
 
     # fix up `o`-length mismatches are impossible by construction; attach the tree
     for i in range(1, n_mod):
-        nm = rng.choice(SUBNAMES + [None, None])
+        nm = ((field_clash_cells and not empty[parent[i]] and fc_name(parent[i], "submodule", 0.5))
+              or rng.choice(SUBNAMES + [None, None]))
         p = mods[parent[i]]
         if nm is None:
             p.submodules += mods[i]
@@ -679,7 +807,7 @@ def gen_design(rng, hist, *, instances=True, memories=True, iobufs=True, layouts
         used = set()
         out = []
         for s in cands + io_c:
-            nm = rng.choice(NAMES + [s.name or "p"] * 6)
+            nm = (field_clash and fc_name(0, "port_name", 0.15)) or rng.choice(NAMES + [s.name or "p"] * 6)
             while nm in used or nm == "":
                 nm = nm + "_" if nm else "p"
             used.add(nm)
